@@ -69,6 +69,16 @@ def base_spec(rnd, i):
     elif k == 4:
         s = GC.gen_cascade(rnd, mapped=False)
         tag = "cascade"
+        if rnd.random() < 0.5:
+            # some Einsums of the cascade shape-partitioned, the others not
+            for ei, e in enumerate(s.exprs):
+                info = GC._einsum_info(s, e)
+                if sum(1 for e2 in s.exprs if e2.out.name == e.out.name) > 1:
+                    continue
+                if info["ranks"] and rnd.random() < 0.5:
+                    s = GM.add_shape_partitioning(rnd, s, info, ordered=True, ei=ei)
+            if s.partitioning:
+                s.tags.append("cascade-partly-partitioned")
     else:
         s, ext, info = GA.gen_affine(rnd, rnd.choice(["S1", "S2", "S3"]))
         tag = "affine"
@@ -104,6 +114,13 @@ def variants(rnd, spec):
     if which == "all" and not spec.partitioning:
         om.partitioning = None
         ex.partitioning = {e.out.name: {} for e in spec.exprs}
+    elif spec.partitioning and len(spec.exprs) > 1 and which in ("all", "both", "loop-order"):
+        # entries present for some Einsums only: the explicit side writes the default ("no
+        # partitioning") for the others, before or after the real entries
+        rest = {e.out.name: {} for e in spec.exprs if e.out.name not in spec.partitioning}
+        if rest:
+            ex.partitioning = dict(rest, **spec.partitioning) if rnd.random() < 0.5 \
+                else dict(spec.partitioning, **rest)
     out.append((om, ex, which))
     return out
 
@@ -138,6 +155,8 @@ def shard(tier, seed, shard, nshards):
             st.bump("monitor", "pairs-compared")
             st.bump("strata_ok", tag)
             st.bump("strata_ok", "omit-" + which)
+            if "cascade-partly-partitioned" in om.tags and ex.partitioning != om.partitioning:
+                st.bump("strata_ok", "default-partitioning-entries-written")
             st.keys.add(C.spec_key(om, "plain", which))
             if a.text != b.text:
                 la, lb = a.text.splitlines(), b.text.splitlines()
@@ -176,6 +195,7 @@ def finalize(results, counters, tier, seed):
     if mon.get("pairs-compared", 0) < N[tier] // 4:
         inc.append("too few pairs compared: %r" % mon)
     miss = [s for s in ("plain", "shape", "occupancy", "cascade", "affine", "flatten-in-place",
+                        "default-partitioning-entries-written",
                         "omit-loop-order",
                         "omit-rank-order", "omit-both", "omit-all")
             if counters.get("strata_ok", {}).get(s, 0) == 0]
